@@ -15,6 +15,7 @@ import (
 	crand "crypto/rand"
 	"encoding/binary"
 	"fmt"
+	"io"
 	"math/big"
 	"math/rand"
 	"sync"
@@ -214,6 +215,102 @@ func labelHalves(l bmr.Label) (int, int) {
 	return int(v >> 16), int(v & 0xffff)
 }
 
+// prefixReader stands in for crypto/rand.Reader while the sender's random label of Fx / Fxk is to be a chosen value:
+// it hands out the queued bytes first and real randomness afterwards.
+type prefixReader struct {
+	mu    sync.Mutex
+	queue []byte
+	orig  io.Reader
+}
+
+func (p *prefixReader) Read(b []byte) (int, error) {
+	p.mu.Lock()
+	if len(p.queue) > 0 {
+		n := copy(b, p.queue)
+		p.queue = p.queue[n:]
+		p.mu.Unlock()
+		return n, nil
+	}
+	p.mu.Unlock()
+	return p.orig.Read(b)
+}
+
+// c20FxPatterns: "all label values" includes the label the sender draws itself.  Fx and Fxk are run with that label
+// forced to 0, to the correlation s, to single bits and to all ones, for every (a, b) / b.
+func c20FxPatterns(res *Result, tr *ndWriter) {
+	sc, rc := p2p.Pipe()
+	defer sc.Close()
+	defer rc.Close()
+	so, ro := ot.NewCO(crand.Reader), ot.NewCO(crand.Reader)
+	var wg sync.WaitGroup
+	var es, er error
+	wg.Add(2)
+	go func() { defer wg.Done(); es = so.InitSender(sc) }()
+	go func() { defer wg.Done(); er = ro.InitReceiver(rc) }()
+	wg.Wait()
+	if es != nil || er != nil {
+		res.viol("error:fx-setup", "OT setup: %v / %v", es, er)
+		return
+	}
+	pr := &prefixReader{orig: crand.Reader}
+	crand.Reader = pr
+	defer func() { crand.Reader = pr.orig }()
+	force := func(l bmr.Label) {
+		pr.mu.Lock()
+		pr.queue = append([]byte(nil), l[:]...)
+		pr.mu.Unlock()
+	}
+	rs := []bmr.Label{{0, 0, 0, 0}, {1, 0, 0, 0}, {0, 0, 0, 1}, {0x80, 0, 0, 0}, {0xff, 0xff, 0xff, 0xff}, {0xfe, 0xff, 0xff, 0xff}}
+	for _, rlab := range rs {
+		for ab := 0; ab < 4; ab++ {
+			a, b := uint(ab&1), uint(ab>>1)
+			var r, xb uint
+			force(rlab)
+			wg.Add(2)
+			go func() { defer wg.Done(); r, es = bmr.FxSend(so, a); sc.Flush() }()
+			go func() { defer wg.Done(); xb, er = bmr.FxReceive(ro, b) }()
+			wg.Wait()
+			if es != nil || er != nil {
+				res.viol("error:fx", "Fx(a=%d, b=%d) with the sender's label %x: %v / %v", a, b, rlab[:], es, er)
+				return
+			}
+			if r^xb != a&b {
+				res.viol("fx-share", "Fx(a=%d, b=%d) with the sender's label %x: r xor x_b = %d, want a*b", a, b, rlab[:], r^xb)
+			}
+			if tr != nil {
+				tr.put(map[string]interface{}{"ev": "fx", "a": a, "b": b, "r": r, "xb": xb})
+			}
+		}
+		for _, s := range []bmr.Label{{0, 0, 0, 0}, rlab, {0xff, 0xff, 0xff, 0xff}, {1, 0, 0, 0}} {
+			for b := uint(0); b < 2; b++ {
+				var rl, xl bmr.Label
+				force(rlab)
+				wg.Add(2)
+				go func() { defer wg.Done(); rl, es = bmr.FxkSend(so, s); sc.Flush() }()
+				go func() { defer wg.Done(); xl, er = bmr.FxkReceive(ro, b) }()
+				wg.Wait()
+				if es != nil || er != nil {
+					res.viol("error:fxk", "Fxk(b=%d, s=%x) with the sender's label %x: %v / %v", b, s[:], rlab[:], es, er)
+					return
+				}
+				if rl != rlab {
+					res.drift("the sender's label could not be forced (got %x, wanted %x)", rl[:], rlab[:])
+					return
+				}
+				d := rl
+				d.Xor(xl)
+				want := bmr.Label{}
+				if b == 1 {
+					want = s
+				}
+				if d != want {
+					res.viol("fxk-share", "Fxk(b=%d, s=%x) with the sender's label %x: r xor x_b = %x, want b*s", b, s[:], rlab[:], d[:])
+				}
+			}
+		}
+	}
+}
+
 func c20Fx(res *Result, tr *ndWriter, rng *rand.Rand, rounds int) {
 	sc, rc := p2p.Pipe()
 	defer sc.Close()
@@ -332,6 +429,10 @@ func c20Main(args []string) error {
 	// Fx / Fxk sequentially and from concurrently running instances
 	res := &Result{Case: idx, Class: "fx", Nontrivial: true}
 	c20Fx(res, tr, rng, 16)
+	out.put(res)
+	idx++
+	res = &Result{Case: idx, Class: "fx-label-patterns", Nontrivial: true}
+	c20FxPatterns(res, tr)
 	out.put(res)
 	idx++
 	for rep := 0; rep < (n+3)/4; rep++ {
